@@ -121,12 +121,21 @@ type scAddr struct {
 
 var addrCache = map[string]scAddr{}
 
+// addrOfScalar: what a key blob means, computed independently of crypto.ToECDSAUnsafe's handling of odd lengths: the first 32
+// bytes read big-endian (i.e. padded with zeros on the LEFT), mod N; the address is derived from the full 32-byte scalar.
 func addrOfScalar(b []byte) (scalar []byte, addr common.Address) {
 	if c, ok := addrCache[string(b)]; ok {
 		return c.scalar, c.addr
 	}
-	k := crypto.ToECDSAUnsafe(b)
-	c := scAddr{k.Serialize(), crypto.PubkeyToAddress(k.PubKey())}
+	in := b
+	if len(in) > 32 {
+		in = in[:32]
+	}
+	v := new(big.Int).SetBytes(in)
+	v.Mod(v, curveN)
+	sc := v.FillBytes(make([]byte, 32))
+	k := crypto.ToECDSAUnsafe(sc)
+	c := scAddr{sc, crypto.PubkeyToAddress(k.PubKey())}
 	if len(addrCache) < 100000 {
 		addrCache[string(b)] = c
 	}
@@ -647,11 +656,16 @@ func derive(rng *hx.Rng, kdf string, pw string) ([]byte, map[string]interface{})
 }
 
 func buildV3(rng *hx.Rng, kdf string, scalar []byte, pw string) []byte {
+	_, addr := addrOfScalar(scalar)
+	return buildV3pt(rng, kdf, scalar, addr, pw)
+}
+
+// buildV3pt: a v3 file whose plaintext is `pt` (possibly shorter than 32 bytes: a key written with its leading zeros stripped).
+func buildV3pt(rng *hx.Rng, kdf string, pt []byte, addr common.Address, pw string) []byte {
 	dk, kp := derive(rng, kdf, pw)
 	iv := rng.Bytes(16)
-	ct := ctrXor(dk[:16], scalar, iv)
+	ct := ctrXor(dk[:16], pt, iv)
 	mac := crypto.Keccak256(dk[16:32], ct)
-	_, addr := addrOfScalar(scalar)
 	js, err := json.Marshal(struct {
 		Address string     `json:"address"`
 		Crypto  cryptoJSON `json:"crypto"`
@@ -666,11 +680,17 @@ func buildV3(rng *hx.Rng, kdf string, scalar []byte, pw string) []byte {
 }
 
 func buildV1(rng *hx.Rng, kdf string, scalar []byte, pw string) []byte {
+	_, addr := addrOfScalar(scalar)
+	return buildV1pt(rng, kdf, scalar, addr, pw)
+}
+
+func buildV1pt(rng *hx.Rng, kdf string, pt []byte, addr common.Address, pw string) []byte {
 	dk, kp := derive(rng, kdf, pw)
 	iv := rng.Bytes(16)
-	padded := append(append([]byte{}, scalar...), make([]byte, 16)...)
-	for i := 32; i < 48; i++ {
-		padded[i] = 16
+	npad := 16 - len(pt)%16 // PKCS#7
+	padded := append([]byte{}, pt...)
+	for i := 0; i < npad; i++ {
+		padded = append(padded, byte(npad))
 	}
 	blk, err := aes.NewCipher(crypto.Keccak256(dk[:16])[:16])
 	if err != nil {
@@ -679,7 +699,6 @@ func buildV1(rng *hx.Rng, kdf string, scalar []byte, pw string) []byte {
 	ct := make([]byte, len(padded))
 	cipher.NewCBCEncrypter(blk, iv).CryptBlocks(ct, padded)
 	mac := crypto.Keccak256(dk[16:32], ct)
-	_, addr := addrOfScalar(scalar)
 	js, err := json.Marshal(struct {
 		Address string     `json:"address"`
 		Crypto  cryptoJSON `json:"crypto"`
@@ -1062,6 +1081,240 @@ func flow(rng *hx.Rng, zeros, passKind, n, p int, lite bool) {
 }
 
 // ---------------------------------------------------------------------------------------------------------------
+// whole-file substitution: account A's key file is replaced on disk by a self-consistent file of ANOTHER key B while the
+// KeyStore still lists the path as A (no rescan is awaited; if one happens the path is no longer A's and every operation
+// fails, which is fine).  Every KeyStore operation on A must fail with an error or still use A's key.
+func substitutionCases(rng *hx.Rng, n int) {
+	for i := 0; i < n; i++ {
+		dir := newDir()
+		ks := keystore.NewKeyStore(dir, 2, 1)
+		sA, sB := genScalar(rng, i%4), genScalar(rng, (i+1)%4)
+		_, addrA := addrOfScalar(sA)
+		_, addrB := addrOfScalar(sB)
+		pwA, pwB := genPass(rng, 5), genPass(rng, 1+i%5)
+		if pwA == pwB {
+			pwB += "b"
+		}
+		accA, errA := ks.ImportECDSA(crypto.ToECDSAUnsafe(sA), pwA)
+		accB, errB := ks.ImportECDSA(crypto.ToECDSAUnsafe(sB), pwB)
+		if errA != nil || errB != nil || accA.Address != addrA || accB.Address != addrB {
+			flowFail("substitution setup", map[string]interface{}{"a": hex.EncodeToString(sA), "b": hex.EncodeToString(sB)}, fmt.Sprint(errA, errB))
+			os.RemoveAll(dir)
+			continue
+		}
+		origA, _ := os.ReadFile(accA.URL.Path)
+		jsB, _ := os.ReadFile(accB.URL.Path)
+		reB, err := keystore.EncryptKey(mkKey(rng, sB), pwA, 2, 1)
+		if err != nil {
+			panic(err)
+		}
+		rewritten := []byte(strings.Replace(string(jsB), hex.EncodeToString(addrB[:]), hex.EncodeToString(addrA[:]), 1))
+		type variant struct {
+			what string
+			js   []byte
+			pws  []string
+		}
+		vs := []variant{
+			{"B's file", jsB, []string{pwB, pwA}},
+			{"B re-encrypted under A's passphrase", reB, []string{pwA}},
+			{"B's file with the address field rewritten to A's", rewritten, []string{pwB}},
+		}
+		hexA := hex.EncodeToString(addrA[:])
+		e := expect{"T", sA, addrA}
+		for _, v := range vs {
+			for _, pw := range v.pws {
+				in := map[string]interface{}{"accountA": hexA, "keyA": hex.EncodeToString(sA), "keyB": hex.EncodeToString(sB), "file-now-at-A's-path": string(v.js), "passphrase": pw, "variant": v.what}
+				put := func() {
+					if err := os.WriteFile(accA.URL.Path, v.js, 0o600); err != nil {
+						panic(err)
+					}
+				}
+				check := func(op, out string) {
+					run.Count("subst:" + op + ":" + strings.Fields(out)[0])
+					switch {
+					case strings.HasPrefix(out, "panic"):
+						violate("panic", "KeyStore."+op+" panic after whole-file substitution", in, out)
+					case strings.HasPrefix(out, "ok") && out != "ok "+hexA:
+						violate("substituted-key-used", "KeyStore."+op+" after whole-file substitution ("+v.what+")", in,
+							"operation on account "+hexA+" succeeded with another key: "+out)
+					}
+				}
+				unlockAndSign := func(timed bool) string {
+					return hx.Safe(func() string {
+						var err error
+						if timed {
+							err = ks.TimedUnlock(accA, pw, time.Hour)
+						} else {
+							err = ks.Unlock(accA, pw)
+						}
+						if err != nil {
+							return "err " + errClass(err)
+						}
+						defer ks.Lock(accA.Address)
+						sgn, err := signerAfterUnlock(ks, accA)
+						if err != nil {
+							return "err sign:" + errClass(err)
+						}
+						return "ok " + sgn
+					})
+				}
+				put()
+				run.Current("subst Unlock " + v.what)
+				out := unlockAndSign(false)
+				check("Unlock", out)
+				// the model's GetKey for account A on the substituted file
+				a := keystore.VerifAbstract(v.js)
+				run.Case("gk "+e.String()+" "+hexA+" "+absFields(a)+" "+hs(pw)+" "+oracles(a, pw, [][]byte{sA, sB}), canon(out))
+				check("TimedUnlock", unlockAndSign(true))
+				check("SignHashWithPassphrase", hx.Safe(func() string {
+					sig, err := ks.SignHashWithPassphrase(accA, pw, signHash)
+					if err != nil {
+						return "err " + errClass(err)
+					}
+					pub, err := crypto.SigToPub(signHash, sig)
+					if err != nil {
+						return "err sig"
+					}
+					ad := crypto.PubkeyToAddress(pub)
+					return "ok " + hex.EncodeToString(ad[:])
+				}))
+				check("SignTxWithPassphrase", hx.Safe(func() string {
+					chain := big.NewInt(3)
+					tx := types.NewTransaction(1, common.Address{1}, big.NewInt(1), 21000, big.NewInt(1), nil)
+					stx, err := ks.SignTxWithPassphrase(accA, pw, tx, chain)
+					if err != nil {
+						return "err " + errClass(err)
+					}
+					from, err := types.Sender(types.NewEIP155Signer(chain), stx)
+					if err != nil {
+						return "err sender"
+					}
+					return "ok " + hex.EncodeToString(from[:])
+				}))
+				check("Export", hx.Safe(func() string {
+					j, err := ks.Export(accA, pw, "exported")
+					if err != nil {
+						return "err " + errClass(err)
+					}
+					ab := keystore.VerifAbstract(j)
+					return "ok " + strings.ToLower(strings.TrimPrefix(ab.Address, "0x")) // the address of the key that was exported
+				}))
+				check("Update", hx.Safe(func() string {
+					if err := ks.Update(accA, pw, "updated"); err != nil {
+						return "err " + errClass(err)
+					}
+					j, _ := os.ReadFile(accA.URL.Path)
+					ab := keystore.VerifAbstract(j)
+					return "ok " + strings.ToLower(strings.TrimPrefix(ab.Address, "0x")) // whose key now sits at A's path
+				}))
+				put()
+				check("Delete", hx.Safe(func() string {
+					if err := ks.Delete(accA, pw); err != nil {
+						return "err " + errClass(err)
+					}
+					return "ok deleted-with-another-key"
+				}))
+			}
+		}
+		// A's own file back: A works again
+		os.WriteFile(accA.URL.Path, origA, 0o600)
+		if err := ks.Unlock(accA, pwA); err != nil {
+			if len(ks.Accounts()) == 2 { // (after a Delete that went through, the account is gone: already reported)
+				flowFail("substitution: A's own file restored", map[string]interface{}{"accountA": hexA}, fmt.Sprintf("%v", err))
+			}
+		} else if sg, err := signerAfterUnlock(ks, accA); err != nil || sg != hexA {
+			violate("signer-mismatch", "KeyStore.Unlock", map[string]interface{}{"accountA": hexA}, fmt.Sprintf("after restoring A's file: signer %s err %v", sg, err))
+		}
+		os.RemoveAll(dir)
+		run.Count("substitution")
+	}
+}
+
+// testVectors: the repo's own key-file vectors (testdata/testkeystore/v3_test_vector.json), incl. the 31- and 30-byte keys.
+func testVectors(thorough bool) {
+	repo := os.Getenv("VERIF_REPO")
+	if repo == "" {
+		repo = "/repo"
+	}
+	b, err := os.ReadFile(filepath.Join(repo, "testdata", "testkeystore", "v3_test_vector.json"))
+	if err != nil {
+		run.Count("testvectors:file-missing")
+		return
+	}
+	var vs map[string]struct {
+		JSON     json.RawMessage `json:"json"`
+		Password string          `json:"password"`
+		Priv     string          `json:"priv"`
+	}
+	if err := json.Unmarshal(b, &vs); err != nil {
+		run.Count("testvectors:unparsable")
+		return
+	}
+	names := make([]string, 0, len(vs))
+	for k := range vs {
+		names = append(names, k)
+	}
+	sort.Strings(names)
+	for _, name := range names {
+		v := vs[name]
+		a := keystore.VerifAbstract(v.JSON)
+		cost := asNum(a.KDFParams["n"]).v + asNum(a.KDFParams["c"]).v
+		if cost > 8192 && !thorough {
+			run.Count("testvectors:skipped-in-quick(expensive KDF)")
+			continue
+		}
+		priv, err := hex.DecodeString(v.Priv)
+		if err != nil {
+			continue
+		}
+		sc, addr := addrOfScalar(priv) // a short `priv` is the key with its leading zero bytes stripped
+		e := expect{"R", sc, addr}
+		dkCase(origin{"bare DecryptKey (repo test vector " + name + ")", "v3", "", ""}, e, v.JSON, v.Password)
+		importCase(origin{"KeyStore.Import (repo test vector " + name + ")", "v3", "", ""}, e, v.JSON, v.Password)
+		run.Count("testvectors:" + name)
+	}
+}
+
+// shortPlaintextCases: read side, legacy files written by clients that stripped the key's leading zero bytes: the plaintext
+// is 31, 30 or 29 bytes.  Built by hand with the same KDF / AES / MAC construction, for every format, with and without the
+// address member.  DecryptKey / Import / Unlock must return the ORIGINAL key and address.
+func shortPlaintextCases(rng *hx.Rng, rounds int) {
+	for i := 0; i < rounds; i++ {
+		for _, f := range []string{"v3-scrypt", "v3-pbkdf2", "v1-scrypt", "v1-pbkdf2"} {
+			for zeros := 1; zeros <= 3; zeros++ {
+				scalar := genScalar(rng, zeros)
+				_, addr := addrOfScalar(scalar)
+				pw := genPass(rng, i+zeros)
+				e := expect{"R", scalar, addr}
+				for strip := 1; strip <= zeros; strip++ {
+					pt := scalar[strip:]
+					var js []byte
+					kdf := strings.Split(f, "-")[1]
+					if strings.HasPrefix(f, "v3") {
+						js = buildV3pt(rng, kdf, pt, addr, pw)
+					} else {
+						js = buildV1pt(rng, kdf, pt, addr, pw)
+					}
+					for _, withAddr := range []bool{true, false} {
+						j, tag := js, "with address"
+						if !withAddr {
+							j, tag = stripAddress(js), "without address"
+						}
+						what := fmt.Sprintf("%d-byte plaintext, %s", len(pt), tag)
+						dkCase(origin{"bare DecryptKey (" + what + ")", f, "", ""}, e, j, pw)
+						importCase(origin{"KeyStore.Import (" + what + ")", f, "", ""}, e, j, pw)
+						if withAddr {
+							gkCase(origin{"KeyStore.Unlock (" + what + ")", f, "", ""}, e, j, pw)
+						}
+						run.Count(fmt.Sprintf("short-plaintext:%d-bytes", len(pt)))
+					}
+				}
+			}
+		}
+	}
+}
+
+// ---------------------------------------------------------------------------------------------------------------
 // EncryptKey correspondence: the model recomputes the file from (key, passphrase, salt, iv, n, p) + oracle values
 
 func encCase(rng *hx.Rng, zeros, passKind, n, p int) {
@@ -1111,6 +1364,11 @@ func main() {
 		flow(fr, 1+i%3, 3+i, keystore.LightScryptN, keystore.LightScryptP, true)
 	}
 
+	nsub := 6
+	if thorough {
+		nsub = 150
+	}
+	substitutionCases(rng.Fork(7), nsub)
 	run.Notes["t_flows_s"] = time.Since(t0).Seconds()
 	// 2. tampering: every character of every field of base files of every format
 	tr := rng.Fork(2)
@@ -1183,6 +1441,14 @@ func main() {
 			}
 		}
 	}
+
+	// 2c. read side: short plaintexts (keys written with their leading zero bytes stripped) and the repo's own vectors
+	nshort := 1
+	if thorough {
+		nshort = 25
+	}
+	shortPlaintextCases(rng.Fork(6), nshort)
+	testVectors(thorough)
 
 	// 3. near-miss passphrases on every format
 	pr := rng.Fork(3)
